@@ -49,6 +49,14 @@ CHECKS = {
             "(content, md, env, children) to ParserInline.parse and StateInline.level starts at 0, so inline parsing does not depend on the block context.", TB, "reads/order obligations on the real source; bounded embedding and option-inertness monitors", "4 C18"),
     "C19": ("other", MIX + "replace_scoped/replace_rare verified by pyvc: GUARD at every content store (text token, no auto link open; counter invariant), postcondition 'only content of text tokens outside autolinks changes'; "
             "smartquotes: dominance GUARDs for every content store and stack push; ORDER: text_join runs after the typographic rules.", TB, DED + "; dominance obligations; bounded shape/locality monitor", "4 C19"),
+    "C09": ("other", MIX + "The escape rule is verified on all paths (pyvc): it fires only on a backslash, pushes exactly one text_special carrying the escaped ASCII-punctuation character and advances by 2, keeps "
+            "backslash + character otherwise, is pure when silent/failing; ORDER: text_join runs last. The end-to-end statement (7 contexts x 2 encodings) is monitored on the real render.",
+            TB + " entity rule, text_join folding and title unescaping are covered by the bounded templates only.", DED + "; bounded template monitor", "4 C09"),
+    "C17": ("other", MIX + "Substitution-lemma side conditions for normalize (regex literals match CR, CRLF-as-one, NUL; replacements clean; chained state.src -> state.src) and ORDER normalize-first: no CR/NUL reaches a later rule. "
+            "The tab/column equivalences are monitored (leading tabs, marker tabs on first and continuation lines).", TB + " re.sub substitution lemma assumed.", "regex side-condition obligations (z3) + order obligations; bounded equivalence monitors", "4 C17"),
+    "C20": ("other", MIX + "Guards proved (pyvc): rules run only under level < maxNesting in ParserBlock.tokenize, ParserInline.tokenize and skipToken; skipToken strictly advances, memoises every outcome and answers from the memo without "
+            "calling a rule; both tokenizers terminate. The growth claim itself is an amortised resource bound and is decided only by the bounded cost contract (38 families at L, 2L, 4L).",
+            TB + " Known finding: family refdefs is quadratic (recorded in known_findings.json).", DED + "; bounded cost contract (sys.setprofile call counts)", "4 C20"),
     "C15": ("other", MIX + "FRAME obligations: renderer/token/tree functions write only per-call objects (repeatable rendering as a frame fact); dict/tree round trips and render-twice monitored on parser output.", TB, "frame obligations + bounded round-trip monitors", "4 C15"),
 }
 
